@@ -384,9 +384,10 @@ class SourceScope(Scope):
             except ImportError:
                 continue
 
+            attrs = module._attrs  # analyses the module (unless it is being analysed: an import cycle)
             names = star_names(module)
             if names is None:
-                names = [n for n in iterkeys(module._attrs) if not n.startswith('_')]
+                names = [n for n in iterkeys(attrs) if not n.startswith('_')]
             for name in names:
                 flow.add_name(ImportedName(name, loc, declared_at, mname, name, True))
 
@@ -400,12 +401,15 @@ def star_names(module):
     __all__ of a loaded module; of a source module when it is assigned once,
     a plain list or tuple of strings, and not touched otherwise. None: all
     public names."""
-    scope = getattr(module, 'scope', None)
-    if scope is None:
-        value = getattr(getattr(module, 'module', None), '__all__', None)
+    if hasattr(module, 'module'):
+        value = getattr(module.module, '__all__', None)
         if isinstance(value, (list, tuple)) and all(isinstance(n, str) for n in value):
             return list(value)
         return None
+
+    scope = getattr(module, '_scope', None)
+    if scope is None or getattr(module, '_loading', False):
+        return None  # in the middle of an import cycle
 
     uses = [n for n in walk(scope.source.tree)
             if isinstance(n, AstName) and n.id == '__all__']
